@@ -354,6 +354,90 @@ def ceStep (st : CeSt) (line : String) (t : Tally) : Except String (CeSt × Tall
                 | none => .ok ({}, t)
   | _ => .error "unknown line"
 
+/-! ### unit-keys: the cache as a map keyed by `==` (classes of equal keys), replayed on a plain finite map (C01, C15) -/
+
+def ukFind (m : List (Nat × Nat)) (c : Nat) : Option Nat := (m.find? (·.1 == c)).map (·.2)
+def ukPut (m : List (Nat × Nat)) (c v : Nat) : List (Nat × Nat) := (c, v) :: m.filter (·.1 != c)
+def ukDel (m : List (Nat × Nat)) (c : Nat) : List (Nat × Nat) := m.filter (·.1 != c)
+
+def ukStep (m : List (Nat × Nat)) (line : String) (t : Tally) : Except String (List (Nat × Nat) × Tally) :=
+  let ws := splitWs line
+  let showR (o : Option Nat) : String := match o with | some v => s!"{v} true" | none => "0 false"
+  match ws with
+  | "cfg" :: rest => .ok (m, t.bump ("type_" ++ (kvOf rest "type").getD "?"))
+  | ["set", c, v] => .ok (ukPut m c.toNat! v.toNat!, t.bump "set")
+  | ["get", c, "=>", v, ok] =>
+    let want := showR (ukFind m c.toNat!)
+    if s!"{v} {ok}" != want then .error s!"C01/C15: GetIfPresent of a key equal (==) to class {c} returned {v} {ok}, the map holds {want}"
+    else .ok (m, t.bump "get")
+  | ["entry", c, "=>", v, ok, kc] =>
+    let want := showR (ukFind m c.toNat!)
+    if s!"{v} {ok}" != want then .error s!"C01/C15: GetEntry of a key equal (==) to class {c} returned {v} {ok}, the map holds {want}"
+    else if ok == "true" && kc != s!"keyclass={c}" then .error s!"C01/C15: GetEntry for class {c} returned an entry whose key is of {kc}"
+    else .ok (m, t.bump "entry")
+  | ["sia", c, v, "=>", rv, ok] =>
+    match ukFind m c.toNat! with
+    | some old =>
+      if s!"{rv} {ok}" != s!"{old} false" then .error s!"C01/C15: SetIfAbsent on present class {c} returned {rv} {ok}, the map holds {old}"
+      else .ok (m, t.bump "sia_present")
+    | none =>
+      if s!"{rv} {ok}" != s!"{v} true" then .error s!"C01/C15: SetIfAbsent on absent class {c} returned {rv} {ok}, expected {v} true"
+      else .ok (ukPut m c.toNat! v.toNat!, t.bump "sia_absent")
+  | ["inv", c, "=>", v, ok] =>
+    let want := showR (ukFind m c.toNat!)
+    if s!"{v} {ok}" != want then .error s!"C01/C15: Invalidate of a key equal (==) to class {c} returned {v} {ok}, the map holds {want}"
+    else .ok (ukDel m c.toNat!, t.bump "inv")
+  | ["cmp", c, nv, "=>", v, ok, calls] =>
+    if calls != "calls=1" then .error s!"C02/C15: the remapping function of one Compute call ran {calls}"
+    else match ukFind m c.toNat! with
+      | some old =>
+        if old % 3 == 0 then
+          if s!"{v} {ok}" != "0 false" then .error s!"C01/C15: Compute (invalidate) on class {c} returned {v} {ok}" else .ok (ukDel m c.toNat!, t.bump "cmp_inv")
+        else if s!"{v} {ok}" != s!"{nv} true" then .error s!"C01/C15: Compute (write) on class {c} returned {v} {ok}, expected {nv} true"
+        else .ok (ukPut m c.toNat! nv.toNat!, t.bump "cmp_write")
+      | none =>
+        if s!"{v} {ok}" != s!"{nv} true" then .error s!"C01/C15: Compute (create) on class {c} returned {v} {ok}, expected {nv} true"
+        else .ok (ukPut m c.toNat! nv.toNat!, t.bump "cmp_create")
+  | ["cmpw", c, nv, "=>", v, ok, calls] =>
+    if calls != "calls=1" then .error s!"C02/C15: the remapping function of one Compute call ran {calls} (insertion of class {c})"
+    else if s!"{v} {ok}" != s!"{nv} true" then .error s!"C01/C15: Compute (create) on class {c} returned {v} {ok}, expected {nv} true"
+    else .ok (ukPut m c.toNat! nv.toNat!, t.bump "cmp_create")
+  | ["cia", c, nv, "=>", v, ok, calls] =>
+    match ukFind m c.toNat! with
+    | some old =>
+      if calls != "calls=0" || s!"{v} {ok}" != s!"{old} true" then .error s!"C01/C15: ComputeIfAbsent on present class {c} returned {v} {ok} {calls}"
+      else .ok (m, t.bump "cia_present")
+    | none =>
+      if calls != "calls=1" then .error s!"C02/C15: the mapping function of one ComputeIfAbsent call ran {calls} (insertion of class {c})"
+      else if s!"{v} {ok}" != s!"{nv} true" then .error s!"C01/C15: ComputeIfAbsent on absent class {c} returned {v} {ok}, expected {nv} true"
+      else .ok (ukPut m c.toNat! nv.toNat!, t.bump "cia_absent")
+  | ["load", c, nv, "=>", v, ok, calls, after] =>
+    match ukFind m c.toNat! with
+    | some old =>
+      if calls != "calls=0" || s!"{v} {ok}" != s!"{old} true" then .error s!"C01/C10: Get on present class {c} returned {v} {ok} {calls}"
+      else .ok (m, t.bump "load_present")
+    | none =>
+      if calls != "calls=1" then .error s!"C10/C08: the loader of one Get call ran {calls} (class {c})"
+      else if s!"{v} {ok}" != s!"{nv} true" then .error s!"C10: Get on absent class {c} returned {v} {ok}, the loader produced {nv}"
+      else if after != s!"after={nv}:true" then .error s!"C10/C01: Get returned the loaded value {nv} for class {c} but it is not cached ({after})"
+      else .ok (ukPut m c.toNat! nv.toNat!, t.bump "load_absent")
+  | "all" :: rest =>
+    let items := match rest.reverse with
+      | last :: "=>" :: _ => ((last.splitOn ",").filter (· != "")).filterMap (fun (it : String) => match it.splitOn ":" with
+          | [a, b] => (match a.toNat?, b.toNat? with | some x, some y => some (x, y) | _, _ => none)
+          | _ => none)
+      | _ => []
+    let t := t.bump "iterations"
+    if natOf rest "dup" != 0 then .error s!"C15: iteration yields {natOf rest "dup"} key(s) (classes of ==) more than once"
+    else match items.find? (fun (c, v) => ukFind m c != some v) with
+      | some (c, v) => .error s!"C01/C15: iteration yields class {c} with value {v}, the map holds {showR (ukFind m c)}"
+      | none =>
+        if items.length != m.length then .error s!"C01/C15: iteration yields {items.length} entries, the map holds {m.length}"
+        else if natOf rest "size" != m.length then .error s!"C15: EstimatedSize = {natOf rest "size"}, the map holds {m.length} keys"
+        else .ok (m, t)
+  | ["clear"] => .ok ([], t.bump "clear")
+  | _ => .error "unknown line"
+
 /-! ### conc-resize: a Compute in progress while the table is resized (C15, C02) -/
 
 def czStep (_st : Unit) (line : String) (t : Tally) : Except String (Unit × Tally) :=
@@ -595,6 +679,7 @@ def dispatch (cmd : String) (_args : List String) (h : IO.FS.Stream) : IO UInt32
   | "conclin" => loop h ({} : LnSt) lnStep {} "" 0 false {}; return 0
   | "concpolicy" => loop h () cpStep () "" 0 false {}; return 0
   | "concresize" => loop h () czStep () "" 0 false {}; return 0
+  | "keys" => loop h ([] : List (Nat × Nat)) ukStep [] "" 0 false {}; return 0
   | "concevents" => loop h ({} : CeSt) ceStep {} "" 0 false {}; return 0
   | "concmpsc" => loop h ({} : CmSt) cmStep {} "" 0 false {}; return 0
   | "concdrain" => loop h () cdStep () "" 0 false {}; return 0
